@@ -29,5 +29,5 @@ MC_LockNames == {}
 MC_CallerIds == {}
 MC_Files == <<>>
 Dump == PrintT(ToJson([path |-> hist, op |-> lastOp', out |-> lastOut', sets |-> lastSets', post |-> Abs(obj'),
-                       bytes |-> IF lastOp'.op = "Reload" THEN WriterModel(obj) ELSE <<>>]))
+                       bytes |-> IF lastOp'.op = "Reload" /\ lastOut' # "range_error" THEN WriterModel(obj) ELSE <<>>]))
 =========================================================================
